@@ -31,10 +31,12 @@ THEOREMS = [P + n for n in [
     "generated_pipeline_known",
     "rewrite_between_sound", "simplify_not_sound", "conn_const_sound", "conn_const_exact", "bin_pair_sound",
     "simplify_neg_neg_sound", "simplify_equality_sound", "simplify_parens_sound", "flatten_sound",
-    "simplify_conditionals_if_sound", "simplify_conditionals_case_counterexample", "simplify_coalesce_head_sound",
+    "simplify_conditionals_if_sound", "simplify_conditionals_sound", "simplify_conditionals_needs_first_branch",
+    "simplify_coalesce_head_sound", "simplify_coalesce_cmp_sound", "simplify_coalesce_null_constant_counterexample",
     "checkStep_sound", "checkStep_exact", "nonnull_needed", "nonnull_needed_absorb",
     "simplify_comparison_and_false_counterexample", "normalize_result", "while_changing_sound",
-]] + ["SqlglotModel.Simplify.ttCheck_sound", "SqlglotModel.Simplify.checkAll_sound"]
+]] + ["SqlglotModel.Simplify.ttCheck_sound", "SqlglotModel.Simplify.checkAll_sound",
+                   "SqlglotModel.Simplify.caseLoop_sound", "SqlglotModel.Simplify.evalCoalesce_split"]
 
 KNOWN_PRE = ["rewrite_between", "uniq_sort", "absorb_and_eliminate", "simplify_concat", "simplify_conditionals", "propagate_constants"]
 KNOWN_POST = ["simplify_not", "flatten", "simplify_connectors", "remove_complements", "simplify_coalesce", "simplify_literals",
@@ -465,7 +467,7 @@ def templates(rng, cols):
         f"({A} {other} {B}) {conn} ({A} {other} NOT {B})", f"({A} {other} {B}) {conn} ({C} {other} {B})",
         f"({A} {other} {B}) {conn} ({A} {other} {B} {other} {C})", f"{C} {conn} {A} {conn} {B} {conn} {A}",
         f"NOT ({A} {conn} {B})", f"NOT NOT {A}", f"NOT NOT ({c} {o1} {l1})", f"NOT NOT {c}", f"NOT ({c} {o1} {l1})", f"NOT {l1}", f"NOT ((NULL))",
-        f"COALESCE({c}, {l1}) {o1} {l2}", f"{l2} {o1} COALESCE({c}, {l1})", f"COALESCE({c}, {c2}, {l1}) {o1} {l2}", f"COALESCE({l1}, {c}) {o1} {l2}", f"COALESCE({c})",
+        f"COALESCE({c}, {l1}) {o1} {l2}", f"{l2} {o1} COALESCE({c}, {l1})", f"COALESCE({c}, {c2}, {l1}) {o1} {l2}", f"COALESCE({l1}, {c}) {o1} {l2}", f"COALESCE({c})", f"COALESCE({c}, NULL, {c2}) {o1} {l2}", f"{l2} {o1} COALESCE({c}, {c2}, -{l1}, {c})",
         f"{c} + {l1} {o1} {l2}", f"{l1} - {c} {o1} {l2}", f"{l1} + {c} {o1} {l2}", f"{c} - {l1} {o1} {l2}", f"-{c} + {l1} {o1} {l2}",
         f"{c} BETWEEN {l1} AND {l2} {conn} {c} {o1} {l2}", f"NOT {c} BETWEEN {l1} AND {l2}",
         f"{c} = {c2} AND {c} = {l1}", f"{c} = {l1} AND {c2} {o1} {c}", f"NOT {c} {o1} {l2} AND NOT {c} = {l1}",
@@ -741,6 +743,19 @@ def in_normal_form(e, dnf):
 
 
 # ------------------------------------------------------------------------------------------ skeletons / classification
+def between_rewritten(e):
+    """`e` with every BETWEEN written as two comparisons (normalize does that in place before it may give up)"""
+    exp, _, _ = sg()
+
+    def rb(n):
+        if isinstance(n, exp.Between):
+            r = exp.And(this=exp.GTE(this=n.this.copy(), expression=n.args["low"].copy()),
+                        expression=exp.LTE(this=n.this.copy(), expression=n.args["high"].copy()))
+            return exp.Paren(this=r) if isinstance(n.parent, exp.Not) else r
+        return n
+    return e.copy().transform(rb)
+
+
 def skeleton(e):
     s = e.sql()
     s = re.sub(r"\b[bcin]\d\b", "id", s)
@@ -773,6 +788,32 @@ def has_non_conjunct_binding(root):
                     return True
                 p = p.parent
     return False
+
+
+def propagated_non_conjunct(before, after):
+    """did the step substitute a binding `column = literal` that is NOT a conjunct of the AND (under NOT, COALESCE ...)?"""
+    exp, _, _ = sg()
+    if not has_non_conjunct_binding(before):
+        return False
+    conj = set()
+    for eq in before.find_all(exp.EQ):
+        if isinstance(eq.left, exp.Column) and isinstance(eq.right, exp.Literal):
+            p = eq.parent
+            ok = True
+            while p is not None and p is not before:
+                if not isinstance(p, (exp.And, exp.Paren)):
+                    ok = False
+                    break
+                p = p.parent
+            if ok:
+                conj.add(eq.left.name)
+    nb = {}
+    for c in before.find_all(exp.Column):
+        nb[c.name] = nb.get(c.name, 0) + 1
+    na = {}
+    for c in after.find_all(exp.Column):
+        na[c.name] = na.get(c.name, 0) + 1
+    return any(na.get(k, 0) < v and k not in conj for k, v in nb.items())
 
 
 def minimise_step(before, after, fn_after=None):
@@ -861,8 +902,8 @@ def check_input(chk: Check, sql, variant, api, dialect, report=True):
         if st != "ok" or not res:
             continue
         kind = classify(res)
-        if rule == "propagate_constants" and has_non_conjunct_binding(be):
-            kind = "eq-not-conjunct"
+        if rule == "propagate_constants" and propagated_non_conjunct(be, af):
+            kind = "eq-not-conjunct"  # the defect repaired by 9e10c4d (kind=fixed: reported if it comes back)
         key = f"{rule}:{skeleton(be)}=>{skeleton(af)}"
         step_diff_envs.append((comp(be), comp(af)))
         viols.append({"key": key, "rule": rule, "kind": kind, "what": f"step {rule}: `{be.sql()}` -> `{af.sql()}` differs under {res[0][0]}: {res[0][1]!r} vs {res[0][2]!r} ({kind})",
@@ -882,11 +923,11 @@ def check_input(chk: Check, sql, variant, api, dialect, report=True):
                           "replay": {"sql": sql, "variant": variant, "api": api, "dialect": dialect, "env": env}, "size": 10 ** 6})
     if api in ("cnf", "dnf"):
         dnf = api == "dnf"
-        if not (in_normal_form(out, dnf) or out == e):
+        if not (in_normal_form(out, dnf) or out == e or between_rewritten(out) == between_rewritten(e)):
             viols.append({"key": f"{api}:not-normal-form:{skeleton(e)}", "rule": api, "kind": "not-normal-form",
                           "what": f"normalize(dnf={dnf}) returned `{out.sql()}` for `{e.sql()}`: neither in normal form nor the input",
                           "replay": {"sql": sql, "variant": variant, "api": api, "dialect": dialect}, "size": 10 ** 6})
-        chk.count(f"nf:{api}:{'normal' if in_normal_form(out, dnf) else 'unchanged' if out == e else 'BAD'}")
+        chk.count(f"nf:{api}:{'normal' if in_normal_form(out, dnf) else 'unchanged'}")
     if report:
         seen_rules = set()
         for v in viols:
@@ -1069,7 +1110,7 @@ CORPUS = [
     ("i0 = 5 AND i0 < 3", "untyped", "simplify"), ("NOT (i0 = 5 AND i0 < 3)", "untyped", "simplify"),
     ("CASE WHEN b0 THEN 1 WHEN TRUE THEN 2 END", "untyped", "simplify"),
     ("NOT i0 < 0 AND NOT i0 = 3", "untyped", "simplify_cp"), ("i1 = 0 AND i1 = 2", "untyped", "simplify_cp"),
-    ("2 < COALESCE(i0, 1)", "untyped", "simplify_co"), ("COALESCE(i0, 1) = 1", "untyped", "simplify_co"),
+    ("2 < COALESCE(i0, 1)", "untyped", "simplify_co"), ("COALESCE(i0, NULL, i1) = 1", "untyped", "simplify_co"), ("COALESCE(i0, 1) = 1", "untyped", "simplify_co"),
     ("c0 AND NOT c0", "nonnull", "simplify"), ("b0 AND NOT b0", "typed", "simplify"), ("c0 AND (NOT c0 OR b0)", "nonnull", "simplify"),
     ("(c0 AND b0) OR (NOT c0 AND b0)", "nonnull", "simplify"), ("(b0 AND b1) OR (NOT b0 AND b1)", "typed", "simplify"),
     ("NOT NOT b0", "typed", "simplify"), ("NOT NOT i0", "typed", "simplify"), ("3 < i0 AND i0 < 5", "untyped", "simplify"),
